@@ -7,13 +7,18 @@ func (cw *CodeWriter) WriteLeadingComments(comments []string) {
 
 	for i, comment := range comments {
 		isComment := len(comment) > 0
+		// nothing is written in front of the first token or comment of the output and
+		// blank lines are not indented: the text is final as written (a clean-up pass
+		// afterwards would shift the source map and reach into multi-line literals)
 		if i == 0 {
-			if isComment {
+			if isComment && cw.lastByte != 0 {
 				cw.emit(" ")
 			}
-		} else {
+		} else if cw.lastByte != 0 {
 			cw.writeNewline()
-			cw.writeIndent()
+			if isComment {
+				cw.writeIndent()
+			}
 		}
 		if isComment {
 			cw.emit("//")
@@ -21,8 +26,10 @@ func (cw *CodeWriter) WriteLeadingComments(comments []string) {
 		cw.emit(comment)
 	}
 
-	// Clear pendings and move to the next line
+	// Clear pendings and move to the next line (unless nothing has been written at all)
 	cw.clearPending()
-	cw.WriteNewline()
-	cw.WriteIndent()
+	if cw.lastByte != 0 {
+		cw.WriteNewline()
+		cw.WriteIndent()
+	}
 }
